@@ -277,9 +277,29 @@ def _bterm(c):
     return c
 
 
+class _At:
+    def __init__(self, arr):
+        self.arr = arr
+
+    def __getitem__(self, key):
+        return _AtKey(self.arr, key)
+
+
+class _AtKey:
+    def __init__(self, arr, key):
+        self.arr, self.key = arr, key
+
+    def set(self, value):
+        out = Array(self.arr.a.copy(), self.arr.dt)
+        out._unlocked = True
+        out[self.key] = value
+        out._unlocked = False
+        return out
+
+
 class Array:
     __array_priority__ = 1000.0
-    __slots__ = ("a", "dt")
+    __slots__ = ("a", "dt", "_unlocked")
 
     def __init__(self, a, dt: DType):
         if not isinstance(a, _np.ndarray):
@@ -414,6 +434,19 @@ class Array:
 
     __index__ = __int__
 
+    def __round__(self, ndigits=None):
+        c = self._scalar()
+        if not _is_term(c):
+            return round(c, ndigits) if ndigits is not None else round(c)
+        if ndigits is not None:
+            raise HarnessError("round(x, ndigits) of a symbolic value")
+        if OPS.name == "F":
+            return Array(z3.simplify(z3.fpRoundToIntegral(z3.RNE(), c)), self.dt)
+        c = simp(c)
+        if core.is_num(c):
+            return round(float(core.frac(c)))
+        raise HarnessError("round() of a symbolic real")
+
     def item(self):
         c = self._scalar()
         if _is_term(c):
@@ -490,7 +523,16 @@ class Array:
             return Array(r, self.dt)
         return Array(r, self.dt)
 
+    @property
+    def at(self):
+        """JAX-style functional update: x.at[idx].set(v) returns a new array."""
+        return _At(self)
+
     def __setitem__(self, key, value):
+        if core._cur is not None and core._cur.notes.get("immutable_arrays") and not getattr(self, "_unlocked", False):
+            # JAX discipline: arrays are immutable (utils.update_at_indices falls
+            # back to x.at[idx].set(y) on this TypeError)
+            raise TypeError("'sx.Array' object does not support item assignment (immutable mode)")
         nk, sym = self._norm_key(key)
         if sym is not None:
             raise HarnessError("assignment through a symbolic index")
